@@ -468,7 +468,8 @@ class Printer:
     """
 
     def __init__(self, mode="min", rnd=None, extra=0.0, extra_targets=False, raw_targets=False, quote=None,
-                 wrap_stmt_whole=False, raw_exp_base=False):
+                 wrap_stmt_whole=False, raw_exp_base=False, raw_noin=False):
+        self.raw_noin = raw_noin  # rejection campaign: print `in` inside a for-init without the required parentheses
         self.raw_exp_base = raw_exp_base  # rejection campaign: print `-a ** b` without the required parentheses
         self.mode = mode
         self.rnd = rnd
@@ -502,7 +503,7 @@ class Printer:
             need = lv < minlevel
             if minlevel == -1:  # callee of `new X` without arguments: MemberExpression or another bare new
                 need = not (lv >= MEMBER or lv == NEWNOARGS)
-            if noin and typ == "BinaryExpression" and n["operator"] == "in":
+            if noin and typ == "BinaryExpression" and n["operator"] == "in" and not self.raw_noin:
                 need = True
             if typ in ("ObjectExpression", "FunctionExpression") and typ_first(typ) in first:
                 need = True
